@@ -118,6 +118,9 @@ func paramNames(nm Naming) []string {
 			out[i] = ""
 		}
 	}
+	if nm.Style == "same" && len(out) >= 2 {
+		out[1] = out[0] // uncurry: inner function's first parameter named like the outer parameter
+	}
 	return out
 }
 
@@ -131,6 +134,9 @@ func namedParams(names, types []string) string {
 
 func namingRank(nm Naming) int {
 	r := 0
+	if nm.Style == "same" {
+		r = 2
+	}
 	for _, v := range nm.V {
 		switch v {
 		case "n":
